@@ -119,6 +119,7 @@ def raising_call(w, keep=False):
 
 
 ROT = {}
+BLACKHOLE = [9]      # port of a listener that accepts connections and never says anything
 
 
 def rotate(key, values):
@@ -206,6 +207,25 @@ def hostile_bytes(item, ser, rng, seq, base="invoke"):
         data = L.build(mtype, rng.choice([0, protocol.FLAGS_COMPRESSED]), seq, s.serializer_id, junk)
         if data[8:10] != b"\x00\x02" and rng.random() < 0.5:
             data = L.patch(data, 8, "!H", protocol.FLAGS_COMPRESSED)       # claims to be compressed, is not
+    elif item == "payload_trailing":
+        first = s.dumpsCall("target", "echo", ["first"], {})
+        second = s.dumpsCall("target", "echo", ["SMUGGLED"], {})
+        data = L.build(mtype, 0, seq, s.serializer_id, bytes(first) + bytes(second))
+    elif item == "payload_proxy_shape":
+        # (the location named in the proxy is one where somebody listens who never answers: whoever contacts it is kept waiting)
+        px = {"__class__": "Pyro5.client.Proxy", "state": ["PYRO:obj@127.0.0.1:%d" % BLACKHOLE[0], [], [], [], "hello", None]}
+        which = rotate("proxyshape", [0, 1, 2, 3])
+        if base == "connect":
+            payload = s.dumps([px, {"handshake": px, "object": "target"}, {"handshake": "hello", "object": px}, px][which])
+        elif ser == "serpent":
+            payload = s.dumps([("target", "echo", px, {}), ("target", "echo", [1], px), px, ("target", px, [1], {})][which])
+        elif ser == "json":
+            payload = s.dumps([{"object": "target", "method": "echo", "params": px, "kwargs": {}},
+                               {"object": "target", "method": "echo", "params": [1], "kwargs": px}, px,
+                               {"object": "target", "method": px, "params": [1], "kwargs": {}}][which])
+        else:
+            payload = s.dumps([["target", "echo", px, {}], ["target", "echo", [1], px], px, ["target", px, [1], {}]][which])
+        data = L.build(mtype, 0, seq, s.serializer_id, payload)
     elif item == "payload_wrong_shape":
         data = L.build(mtype, 0, seq, s.serializer_id, s.dumps(rng.choice([42, "text", [1, 2], {"a": 1}, None])))
     elif item.startswith("trunc_"):
@@ -257,10 +277,15 @@ def run_scripts(scripts, servertype, timeout, seed, full=False):
     def fresh_lab():
         lab = L.Lab(servertype=servertype, commtimeout=timeout, poolsize=2 if full else 8)
         lab.daemon.register(make_target(lab)(), "target")
+        hole = lab.net.create_socket(bind=("127.0.0.1", 0))
+        lab.blackhole = hole
+        BLACKHOLE[0] = hole.addr[1]
         # streamed results: with a communication timeout configured they also get a lifetime and a linger period
         lab.config.ITER_STREAM_LIFETIME = 1.0 if timeout else 0.0
         lab.config.ITER_STREAM_LINGER = 0.5 if timeout else 0.0
         return lab
+
+    nscript = [0]
 
     def main():
         sc = S.CUR
@@ -276,6 +301,9 @@ def run_scripts(scripts, servertype, timeout, seed, full=False):
             sc.set_budget(6000)
             hang = False
             witness_ok = fresh_ok = True
+            # the application's disconnect hook fails in every third script (both servers log that and go on)
+            nscript[0] += 1
+            lab.hook_raises = nscript[0] % 3 == 2
             att = {1: Attacker(), 2: Attacker()}
             stalled = []
             w = blocker = None
@@ -484,7 +512,7 @@ def run(ctx):
     tlc.mc(ctx, "Daemon", cfg_text=c08.MC_CFG % (c08.SAMPLES[1], ctx.pick(8, 9)))
     s1 = tlc.gen(ctx, "Gen_Hostile", cfg_text=GEN_CFG % 1)
     s2 = tlc.gen(ctx, "Gen_Hostile", cfg_text=GEN_CFG % 2)
-    if len(s1) != 136 or len(s2) < 10000:
+    if len(s1) != 144 or len(s2) < 10000:
         raise util.MachineryError("attack script generation incomplete")
     walks = tlc.gen(ctx, "Gen_Hostile", cfg_text=GEN_CFG % 5, workers=1,
                     extra=("-simulate", "num=%d" % ctx.pick(500, 6000), "-depth", "7", "-seed", str(ctx.seed + 5)))
